@@ -18,22 +18,24 @@ from symx.core import Sym, SymBool, cur
 from symx.logic import b2i, between, iff, implies, ite, land, lnot, lor, state_is
 from symx.run import Job
 
+from . import stubs
 from .common import rebind, states_equal, values_equal
 
 PROPERTY = "C19"
 ENCODED = [
     "menelaus.concept_drift.md3:MD3.__init__", "menelaus.concept_drift.md3:MD3.set_reference",
     "menelaus.concept_drift.md3:MD3.update", "menelaus.concept_drift.md3:MD3.give_oracle_label",
-    "menelaus.concept_drift.md3:MD3.reset", "menelaus.detector:DriftDetector.update", "menelaus.detector:DriftDetector.reset",
+    "menelaus.concept_drift.md3:MD3.reset", "menelaus.concept_drift.md3:MD3.calculate_distribution_statistics", "menelaus.detector:DriftDetector.update", "menelaus.detector:DriftDetector.reset",
 ]
 BOUNDS = {
-    "quick": "all call sequences of length <=4 over the five operations after set_reference; reference size N>=1, "
+    "quick": "k-fold summary: 2-3 folds of sizes (1,1), (2,1), (3,2), (2,2,1) with symbolic margin signals and fold accuracies; "
+             "all call sequences of length <=4 over the five operations after set_reference; reference size N>=1, "
              "oracle_data_length_required in {None (=N), symbolic >=1}, sensitivity and all reference statistics symbolic reals, "
              "margin signal symbolic in {0,1}, oracle accuracy symbolic in [0,1]",
-    "thorough": "call sequences of length <=6",
+    "thorough": "call sequences of length <=6; folds up to (3,3,2) and (2,2,2,1)",
 }
-OUTSIDE = ("the k-fold reference summary itself (sklearn KFold/clone/fit/predict/accuracy_score): replaced by symbolic statistics; "
-           "the default margin function (needs a fitted linear classifier); sequences longer than the bound")
+OUTSIDE = ("sklearn KFold / clone / fit / predict / accuracy_score themselves (recording stubs in the summary jobs, symbolic statistics "
+           "in the protocol jobs); the default margin function (needs a fitted linear classifier); sequences longer than the bound")
 ASSUMPTIONS = [
     "calculate_distribution_statistics returns arbitrary (len>=1, md, md_std>=0, acc, acc_std>=0); accuracy_score returns an "
     "arbitrary value in [0,1]; the classifier is a deterministic stub; the margin signal is an arbitrary 0/1 value per sample",
@@ -187,6 +189,87 @@ def ctx_last_signal(ctx):
     return int(ctx.model.get(name, 0)) if isinstance(ctx.model.get(name, 0), int) else int(ctx.model[name])
 
 
+def body_summary(ctx, folds, via):
+    """the k-fold reference summary: mean and (population) standard deviation over the folds of the per-fold margin
+    density and of the per-fold accuracy.  KFold / clone / accuracy_score are recording stubs; the folds have the given
+    (possibly unequal) sizes; the margin signal of every row and the accuracy of every fold are symbolic."""
+    from menelaus.concept_drift import md3 as M
+    from specs.sequential_tests import mean_of, pop_std_of
+
+    n = sum(folds)
+    k = len(folds)
+    sig = [ctx.int(f"signal{i}") for i in range(n)]
+    for v in sig:
+        ctx.assume(between(0, v, 1))
+    accs = [ctx.real(f"accuracy{j}") for j in range(k)]
+    for a in accs:
+        ctx.assume(between(0, a, 1))
+    rec = {"kfold": [], "fit": [], "acc": [], "margin": []}
+    idx, start = [], 0
+    for f in folds:
+        idx.append(list(range(start, start + f)))
+        start += f
+
+    class FakeKFold:
+        def __init__(self, n_splits=5, shuffle=False, random_state=None):
+            rec["kfold"].append(n_splits)
+
+        def split(self, X):
+            for test in idx:
+                yield np.array([i for i in range(n) if i not in test]), np.array(test)
+
+    class FoldClf(Clf):
+        def fit(self, X, y):
+            rec["fit"].append((list(X["row"]), list(y)))
+            return self
+
+        def predict(self, X):
+            return ("pred", tuple(X["row"]))
+
+    def fake_clone(clf):
+        return FoldClf()
+
+    def fake_acc(y_true, y_pred):
+        j = len(rec["acc"])
+        rec["acc"].append((list(np.asarray(y_true).reshape(-1)), y_pred))
+        return accs[j]
+
+    def margin(self, sample, clf):
+        i = int(sample[0])
+        rec["margin"].append((i, type(clf).__name__))
+        return sig[i]
+
+    d = M.MD3(Clf(), margin_calculation_function=margin, sensitivity=ctx.real("sensitivity"), k=k)
+    ref = pd.DataFrame({"row": list(range(n)), "f2": [float(i % 2) for i in range(n)], "y": [i % 2 for i in range(n)]})
+    shim = stubs.NpShim()
+    with rebind(M, KFold=FakeKFold, clone=fake_clone, accuracy_score=fake_acc, np=shim):
+        if via == "set_reference":
+            d.set_reference(ref, target_name="y")
+            st = d.reference_distribution
+        else:
+            # the summary of a new reference adopted after an oracle round goes through the same function
+            d.reference_batch_features = ref.loc[:, ref.columns != "y"]
+            d.reference_batch_target = ref.loc[:, ref.columns == "y"]
+            st = d.calculate_distribution_statistics(ref)
+    ctx.prove(rec["kfold"] == [k], "k-folds-as-configured")
+    ctx.prove([m[0] for m in rec["margin"]] == [i for f in idx for i in f] and all(m[1] == "FoldClf" for m in rec["margin"]),
+              "margin-signal-of-every-held-out-row-from-the-fold-classifier")
+    ctx.prove(len(rec["fit"]) == k and all(fr == [i for i in range(n) if i not in f] and fy == [i % 2 for i in range(n) if i not in f]
+                                           for (fr, fy), f in zip(rec["fit"], idx)), "fold-classifier-fitted-on-the-training-part")
+    ctx.prove(len(rec["acc"]) == k and all(ya == [i % 2 for i in f] and yp == ("pred", tuple(f))
+                                           for (ya, yp), f in zip(rec["acc"], idx)), "accuracy-on-the-held-out-part")
+    dens = [sum(sig[i] for i in f) / len(f) for f in idx]
+    ctx.prove(st["len"] == n, "summary-length")
+    ctx.prove(ctx.eq(st["md"], mean_of(dens)), "margin-density-is-the-mean-over-folds")
+    ctx.prove(ctx.eq(st["md_std"], pop_std_of(dens)), "margin-density-deviation-over-folds")
+    ctx.prove(ctx.eq(st["acc"], mean_of(accs)), "accuracy-is-the-mean-over-folds")
+    ctx.prove(ctx.eq(st["acc_std"], pop_std_of(accs)), "accuracy-deviation-over-folds")
+    if via == "set_reference":
+        ctx.prove(land(ctx.eq(d.curr_margin_density, mean_of(dens)), ctx.eq(d.forgetting_factor, (n - 1) / n),
+                       d.oracle_data_length_required == n), "set_reference-starts-from-the-summary")
+    ctx.witness("summary")
+
+
 def jobs(tier):
     from itertools import product
 
@@ -206,4 +289,8 @@ def jobs(tier):
     out.append(Job("protocol-witness-refusals", "checks.c19:body_protocol",
                    {"length": 4, "first_ops": ["oracle", "update", "update", "oracle_badcols"], "explicit_len": False},
                    expect=("refused-oracle", "refused-update", "refused-oracle_badcols"), opts={"validate": 2}))
+    for folds in ((1, 1), (2, 1), (3, 2), (2, 2, 1)) if q else ((1, 1), (2, 1), (3, 2), (2, 2, 1), (3, 3, 2), (2, 2, 2, 1)):
+        for via in ("set_reference", "direct"):
+            out.append(Job(f"summary-{'x'.join(map(str, folds))}-{via}", "checks.c19:body_summary",
+                           {"folds": list(folds), "via": via}, expect=("summary",), opts={"validate": 1}))
     return out
